@@ -20,7 +20,7 @@ RULE = ("history phase: 1-2 committers x 2-5 commits (appends, deletes, expiries
         "behind; the committed set is the list of versions the pointer ever named (flip log). Then the pointer is "
         "replaced by one of: missing, empty, whitespace, noise, invalid UTF-8, legacy numeric naming nothing, "
         "numeric strings str.isdigit() accepts but int() does not (superscript / circled digits, 5000 digits), other-script "
-        "digits, a signed number, names with NUL / upper-case hex / a path component, "
+        "digits, a signed number, names with NUL / upper-case hex / a path component / a 5000-digit or superscript version, "
         "well-formed name of a file that never existed (version below / above the latest), the right name with "
         "trailing newline / spaces, a STALE committed version, or a legacy numeric pointer next to a legacy-named copy "
         "of the latest version. A fresh process then runs a seeded subsequence of {load_table, create_table(other "
